@@ -666,6 +666,26 @@ fn sibling(text: &str, rng: &mut Rng) -> String {
             }
             v
         };
+        // add an alternative to an enum: a new variant starting with an existing terminal (changes
+        // the nonterminal's FIRST set) or an empty one (makes it nullable)
+        let enums: Vec<usize> = (0..lines.len()).filter(|i| lines[*i].starts_with("enum ") && lines[*i].trim_end().ends_with('{')).collect();
+        if rng.chance(1, 2) && !enums.is_empty() && !dollars.is_empty() {
+            let at = enums[rng.below(enums.len())];
+            let (d0, d1) = dollars[rng.below(dollars.len())];
+            let extra = if rng.chance(3, 4) {
+                format!("    Extra{}({})\n", rng.below(90) + 10, &text[d0..d1])
+            } else {
+                format!("    Nothing{}\n", rng.below(90) + 10)
+            };
+            let mut out = String::new();
+            for (i, l) in lines.iter().enumerate() {
+                out.push_str(l);
+                if i == at {
+                    out.push_str(&extra);
+                }
+            }
+            return out;
+        }
         if rng.chance(1, 2) && !body.is_empty() {
             let drop = body[rng.below(body.len())];
             let out: String = lines.iter().enumerate().filter(|(i, _)| *i != drop).map(|(_, l)| *l).collect();
@@ -1124,7 +1144,36 @@ fn main() {
                     texts_seen.insert(*id);
                     texts.push(t);
                 }
-                let (script, cfg) = draw_script(&mut rng, n_texts, &base_dir);
+                let (mut script, cfg) = draw_script(&mut rng, n_texts, &base_dir);
+                // a text and its sibling back to back on one thread (both orders over the runs): what
+                // a cache that outlives the call and is keyed on less than the whole text is wrong for
+                for i in 0..ids.len() {
+                    for j in 0..ids.len() {
+                        if i != j
+                            && ids[i] >= nfixed
+                            && ids[j] == nfixed + ((ids[i] - nfixed) ^ 1)
+                            && rng.chance(1, 2)
+                            && script.steps.len() < 14
+                        {
+                            let k = (rng.next_u64(), rng.next_u64());
+                            script.incarnations.push(k);
+                            let inc = script.incarnations.len() - 1;
+                            for t in [i, j] {
+                                script.steps.push(Step {
+                                    inc,
+                                    env: vec![],
+                                    cwd: None,
+                                    real_jump_ns: 0,
+                                    mono_jump_ns: 0,
+                                    clock_tick_ns: 0,
+                                    env_salt: 0,
+                                    cpus: 1,
+                                    text: t,
+                                });
+                            }
+                        }
+                    }
+                }
                 let mut recs = exec_script(&script, &texts, &base_dir, None);
                 runs_done += 1;
                 let spawned: u64 = recs.iter().map(|x| x.threads_spawned).sum();
